@@ -51,8 +51,11 @@ func metaDoc(c model.MetaCfg, format string, t *fixture.Tree) fixture.Doc {
 	set("homepage", c.Homepage)
 	set("license", c.License)
 	blocks := map[string]map[string]any{"rpm": {"buildhost": "buildhost.example"}, "deb": {}, "apk": {}, "archlinux": {}, "ipk": {}}
-	if c.FormatArch != "" {
+	if c.FormatArch != "" && !c.ArchInOverride {
 		blocks[format]["arch"] = c.FormatArch
+	}
+	if c.FormatArch != "" && c.ArchInOverride {
+		d["overrides"] = map[string]any{format: map[string]any{format: map[string]any{"arch": c.FormatArch}}}
 	}
 	for kind, items := range c.Rel {
 		var l []any
